@@ -304,8 +304,14 @@ def try_solve(assumptions, timeout_ms):
             fs = [tr.bool(a) for a in assumptions]
         except Unsupported:
             STATS['unsupported'] += 1; return None
-        sv = z3.Solver(); sv.set('timeout', int(timeout_ms)); sv.add(*fs); sv.add(*tr.side)
-        r = sv.check()
+        # z3's nonlinear integer procedure is erratic on these goals (the same query: 3 s or no answer in 90 s, run to run):
+        # a small portfolio of random seeds with growing timeouts inside the budget instead of one long attempt
+        r = z3.unknown; sv = None; budget = float(timeout_ms)
+        for seed, share in ((0, 0.12), (7, 0.18), (23, 0.3), (101, 0.4)):
+            sv = z3.Solver(); sv.set('timeout', max(1000, int(budget * share))); sv.set('random_seed', seed)
+            sv.add(*fs); sv.add(*tr.side)
+            r = sv.check()
+            if r != z3.unknown: break
         if r == z3.unsat:
             STATS['unsat'] += 1; return ('unsat', None)
         if r == z3.sat:
